@@ -216,7 +216,7 @@ class ShutilShim(object):
     def __init__(self, sim):
         self.sim = sim
 
-    def copy(self, a, b):
+    def copy(self, a, b, **kw):
         self.sim.point("shutil.copy", "os")
         # a crash in the middle of the copy: half of the bytes are there
         if self.sim.capture:
@@ -224,7 +224,9 @@ class ShutilShim(object):
             with open(b, "wb") as f:
                 f.write(data[:len(data) // 2])
             self.sim.point("mid-shutil.copy", "after")
-        r = shutil.copy(a, b)
+        if self.sim.capture and os.path.exists(b) and not os.path.islink(b):
+            os.remove(b)
+        r = shutil.copy(a, b, **kw)
         self.sim.point("after-shutil.copy", "after")
         return r
 
@@ -645,7 +647,8 @@ class C19Engine(DbEngine):
         # 3. pre-existing contents
         inputs = []
         if not viol:
-            for case in ("rows", "empty", "random", "truncated", "newer", "create-only", "open-only", "odd-path", "siblings"):
+            for case in ("rows", "empty", "random", "truncated", "newer", "create-only", "open-only", "odd-path", "siblings",
+                         "symlinks"):
                 d = self.workdir("pre")
                 p = os.path.join(d, "db.sqlite")
                 try:
@@ -781,6 +784,55 @@ class C19Engine(DbEngine):
                                                       "removed" if fn not in after else "modified", fn)))
                                 break
                         inputs.append(("siblings", len(before)))
+                    elif case == "symlinks":
+                        # the configured path is a symbolic link: dangling (a fresh data volume), or
+                        # leading to a database with rows
+                        tgt = os.path.join(d, "data")
+                        os.makedirs(tgt)
+                        os.symlink(os.path.join(tgt, "real.sqlite"), p)
+                        for attempt in (1, 2):
+                            db = None
+                            try:
+                                db = opener(p)
+                            except Exception as e:
+                                viol.append(self.v("next-start-succeeds", "start #%d on a dangling symbolic link fails: %s: %s"
+                                                   % (attempt, type(e).__name__, e)))
+                                break
+                            finally:
+                                close_quiet(db)
+                        if not viol:
+                            if schema_dump(p) != ref_schema or version_of(p) != ref_version:
+                                viol.append(self.v("nothing-or-complete", "a dangling symbolic link at the path did not become a complete database"))
+                            junk = [f for f in os.listdir(tgt) if os.path.getsize(os.path.join(tgt, f)) == 0]
+                            if junk:
+                                viol.append(self.v("nothing-or-complete", "starting on a dangling symbolic link left empty file(s) %r at its target" % junk))
+                        # open-only entry point on a dangling link: refuses and creates nothing
+                        if not viol:
+                            p3 = os.path.join(d, "other.sqlite")
+                            os.symlink(os.path.join(tgt, "other-real.sqlite"), p3)
+                            try:
+                                db = database.open_existing_db(p3)
+                                close_quiet(db)
+                                viol.append(self.v("open-only-never-creates", "open_existing_db opened a dangling symbolic link"))
+                            except database.DBDoesntExist:
+                                pass
+                            except Exception as e:
+                                viol.append(self.v("open-only-never-creates", "open_existing_db on a dangling link: %s: %s"
+                                                   % (type(e).__name__, e)))
+                            if os.path.exists(os.path.join(tgt, "other-real.sqlite")):
+                                viol.append(self.v("open-only-never-creates", "open_existing_db created the target of a dangling link"))
+                        # a link to a database with rows: opened in place, rows kept
+                        if not viol:
+                            real = os.path.join(tgt, "rows.sqlite")
+                            close_quiet(opener(real))
+                            (rand_rows_channel if kind == "channel" else rand_rows_usage)(rng, real)
+                            p4 = os.path.join(d, "linked.sqlite")
+                            os.symlink(real, p4)
+                            before_dump = full_dump(real)
+                            close_quiet(opener(p4))
+                            if not os.path.islink(p4) or full_dump(real) != before_dump:
+                                viol.append(self.v("existing-database-kept", "opening a %s database through a symbolic link changed it" % kind))
+                        inputs.append(("symlinks", 3))
                     elif case == "open-only":
                         try:
                             db = database.open_existing_db(p)
@@ -907,7 +959,7 @@ class C20Engine(DbEngine):
             # the same upgrade when the file is named differently (bare name in the working
             # directory, ./name, a path through a symlinked directory)
             if not viol:
-                spelling = ["bare", "dot", "symlink"][seed % 3]
+                spelling = ["bare", "dot", "symlink", "symlink-file"][seed % 4]
                 extra["spelling_" + spelling] = 1
                 d2 = self.workdir("sp")
                 cwd = os.getcwd()
@@ -917,10 +969,16 @@ class C20Engine(DbEngine):
                     if spelling == "symlink":
                         os.symlink(d2, d2 + "-link")
                         name = os.path.join(d2 + "-link", "usage.sqlite")
+                    elif spelling == "symlink-file":
+                        # the configured path is a symbolic link to the database
+                        os.makedirs(d2 + "-link")
+                        os.symlink(os.path.join(d2, "usage.sqlite"), os.path.join(d2 + "-link", "usage.sqlite"))
+                        name = os.path.join(d2 + "-link", "usage.sqlite")
                     else:
                         os.chdir(d2)
                         name = "usage.sqlite" if spelling == "bare" else "./usage.sqlite"
-                    where = "upgrade of a file given as %r" % (name if spelling != "symlink" else "<symlinked dir>/usage.sqlite")
+                    where = "upgrade of a file given as %r" % (name if not spelling.startswith("symlink") else
+                                                               "<%s>/usage.sqlite" % spelling)
                     db = None
                     try:
                         db = database.create_or_upgrade_usage_db(name)
@@ -935,13 +993,27 @@ class C20Engine(DbEngine):
                         if schema_dump(p2) != ref_schema or version_of(p2) != ref_version or full_dump(p2) != final_dump:
                             viol.append(self.v("upgrade-completes-however-the-file-is-named",
                                                "%s: result differs from the upgrade by absolute path" % where))
-                        elif not os.path.exists(p2 + "-backup-v1") or open(p2 + "-backup-v1", "rb").read() != old_bytes:
-                            viol.append(self.v("backup-is-byte-identical", "%s: backup missing or not the old file" % where))
+                        else:
+                            bk2 = (name if spelling == "symlink-file" else p2) + "-backup-v1"
+                            if not os.path.exists(bk2) or open(bk2, "rb").read() != old_bytes:
+                                viol.append(self.v("backup-is-byte-identical", "%s: backup missing or not the old file" % where))
+                            if spelling == "symlink-file" and not viol:
+                                # a second start (the upgrade is done) must be a no-op
+                                db = None
+                                try:
+                                    db = database.create_or_upgrade_usage_db(name)
+                                except Exception as e:
+                                    viol.append(self.v("upgrade-completes-however-the-file-is-named",
+                                                       "%s: the next start fails: %s: %s" % (where, type(e).__name__, e)))
+                                finally:
+                                    close_quiet(db)
                 finally:
                     os.chdir(cwd)
                     shutil.rmtree(d2, ignore_errors=True)
                     if os.path.islink(d2 + "-link"):
                         os.remove(d2 + "-link")
+                    else:
+                        shutil.rmtree(d2 + "-link", ignore_errors=True)
             # real process killed before each of its file-system operations (every 25th seed)
             if not viol and seed % 25 == 0:
                 seed_db = os.path.join(scratch_root(), "c20-seed-%d-%d.sqlite" % (os.getpid(), seed))
